@@ -232,7 +232,8 @@ Proof. destruct void; discriminate. Qed.
 (* the bytes after a tag name or an attribute start like this *)
 Definition tagrest_shape (f : list Z) : Prop :=
   exists ws2 r2, f = ws2 ++ r2 /\ all_ws ws2 /\
-    ((ws2 <> [] /\ exists c r, r2 = c :: r /\ keychar c) \/ (exists r, r2 = 62 :: r) \/ (exists r, r2 = 47 :: 62 :: r)).
+    ((ws2 <> [] /\ exists c r, r2 = c :: r /\ keychar c) \/ (exists r, r2 = 62 :: r) \/ (exists r, r2 = 47 :: 62 :: r) \/
+     r2 = []).                                                                 (* the end of input inside the tag *)
 
 Lemma tag_rest_shape attrs ws void rest : wf_attrs attrs (ws ++ closer void) -> all_ws ws ->
   tagrest_shape (tag_rest attrs ws void ++ rest).
@@ -256,38 +257,38 @@ Proof. exact (fun H => H). Qed.
 (* consequences of the shape used by the construct lemmas *)
 Lemma shape_tag_stop f : tagrest_shape f -> tag_stop f.
 Proof.
-  intros (ws2 & r2 & -> & Hws & Hr). right. destruct ws2 as [|w ws2'].
-  - cbn [app]. destruct Hr as [[H _]|[(r & ->)|(r & ->)]]; [congruence| |].
+  intros (ws2 & r2 & -> & Hws & Hr). destruct ws2 as [|w ws2'].
+  - cbn [app]. destruct Hr as [[H _]|[(r & ->)|[(r & ->)| ->]]]; [congruence| | |left; reflexivity]; right.
     + exists 62, r. split; [reflexivity|tauto].
     + exists 47, (62 :: r). split; [reflexivity|]. right; right. split; [reflexivity|eauto].
-  - exists w, (ws2' ++ r2). split; [reflexivity|left]. inversion Hws; assumption.
+  - right. exists w, (ws2' ++ r2). split; [reflexivity|left]. inversion Hws; assumption.
 Qed.
 
 Lemma shape_key_stop f : tagrest_shape f -> exists ws2 r2, f = ws2 ++ r2 /\ all_ws ws2 /\ attr_follow r2 /\ key_stop (ws2 ++ r2).
 Proof.
   intros (ws2 & r2 & -> & Hws & Hr). exists ws2, r2. split; [reflexivity|]. split; [exact Hws|]. split.
-  - right. destruct Hr as [(_ & c & r & -> & Hk)|[(r & ->)|(r & ->)]].
+  - destruct Hr as [(_ & c & r & -> & Hk)|[(r & ->)|[(r & ->)| ->]]]; [right|right|right|left; reflexivity].
     + exists c, r. destruct Hk as (K1 & K2 & _). tauto.
     + exists 62, r. repeat split; discriminate || reflexivity.
     + exists 47, (62 :: r). repeat split; discriminate || reflexivity.
-  - right. destruct ws2 as [|w ws2'].
-    + cbn [app]. destruct Hr as [[H _]|[(r & ->)|(r & ->)]]; [congruence| |].
+  - destruct ws2 as [|w ws2'].
+    + cbn [app]. destruct Hr as [[H _]|[(r & ->)|[(r & ->)| ->]]]; [congruence|right|right|left; reflexivity].
       * exists 62, r. split; [reflexivity|tauto].
       * exists 47, (62 :: r). split; [reflexivity|]. right; right; right. split; [reflexivity|eauto].
-    + exists w, (ws2' ++ r2). split; [reflexivity|left]. inversion Hws; assumption.
+    + right. exists w, (ws2' ++ r2). split; [reflexivity|left]. inversion Hws; assumption.
 Qed.
 
-Lemma shape_unquoted_follow f : tagrest_shape f -> (exists c r, f = c :: r /\ (is_ws c = true \/ c = 62)) \/ (exists r, f = 47 :: 62 :: r).
+Lemma shape_unquoted_follow f : tagrest_shape f -> (exists c r, f = c :: r /\ (is_ws c = true \/ c = 62)) \/ (exists r, f = 47 :: 62 :: r) \/ f = [].
 Proof.
   intros (ws2 & r2 & -> & Hws & Hr). destruct ws2 as [|w ws2'].
-  - cbn [app]. destruct Hr as [[H _]|[(r & ->)|(r & ->)]]; [congruence|left; eauto|right; eauto].
+  - cbn [app]. destruct Hr as [[H _]|[(r & ->)|[(r & ->)| ->]]]; [congruence|left; eauto|right; left; eauto|right; right; reflexivity].
   - left. exists w, (ws2' ++ r2). split; [reflexivity|left]. inversion Hws; assumption.
 Qed.
 
 (* ---- one attribute ------------------------------------------------------------------------------------------------------ *)
-Lemma unquoted_value_app v f rest : f <> [] -> unquoted_value v f -> unquoted_value v (f ++ rest).
+Lemma unquoted_value_app v f rest : (f <> [] \/ rest = []) -> unquoted_value v f -> unquoted_value v (f ++ rest).
 Proof.
-  intros Hne (H1 & H2 & H3). split; [exact H1|]. split; [exact H2|]. right.
+  intros [Hne| ->]; [|rewrite app_nil_r; tauto]. intros (H1 & H2 & H3). split; [exact H1|]. split; [exact H2|]. right.
   destruct H3 as [->|(c & r & -> & Hc)]; [congruence|]. exists c, (r ++ rest). split; [reflexivity|exact Hc].
 Qed.
 
@@ -295,7 +296,7 @@ Lemma slice_zero_len {A} (s : list A) a : slice s a (a + 0) = [].
 Proof. unfold slice, firstz. replace (a + 0 - a) with 0 by lia. reflexivity. Qed.
 
 Lemma lexes_attr d l pre a f0 rest : at_input d l pre (attr_bytes a ++ f0 ++ rest) -> intag l = true ->
-  wf_attr a f0 -> f0 <> [] -> tagrest_shape (f0 ++ rest) ->
+  wf_attr a f0 -> (f0 <> [] \/ rest = []) -> tagrest_shape (f0 ++ rest) ->
   exists l', lexes d l pre (attr_bytes a) (f0 ++ rest) [attr_obs a] l' /\ intag l' = true /\ rawtag l' = rawtag l.
 Proof.
   intros Hat Hit Hwf Hne Hshape. destruct (at_input_buflen _ _ _ _ Hat) as [Hbl Hpre0].
@@ -362,7 +363,7 @@ Qed.
 
 (* ---- all attributes of a tag ---------------------------------------------------------------------------------------------- *)
 Lemma lexes_attrs attrs : forall d l pre tail rest, at_input d l pre (concat (map attr_bytes attrs) ++ tail ++ rest) ->
-  intag l = true -> wf_attrs attrs tail -> tail <> [] ->
+  intag l = true -> wf_attrs attrs tail -> (tail <> [] \/ rest = []) ->
   (forall attrs', wf_attrs attrs' tail -> tagrest_shape ((concat (map attr_bytes attrs') ++ tail) ++ rest)) ->
   exists l', lexes d l pre (concat (map attr_bytes attrs)) (tail ++ rest) (map attr_obs attrs) l' /\
              intag l' = true /\ rawtag l' = rawtag l.
@@ -371,7 +372,7 @@ Proof.
   - exists l. split; [apply lexes_nil; exact Hat|tauto].
   - cbn [map concat wf_attrs] in *. destruct Hwf as [Ha Hwf].
     set (f0 := concat (map attr_bytes attrs) ++ tail).
-    assert (Hf0 : f0 <> []) by (unfold f0; intros E; apply app_eq_nil in E; destruct E; congruence).
+    assert (Hf0 : f0 <> [] \/ rest = []) by (destruct Hne as [Hne|Hne]; [left; unfold f0; intros E; apply app_eq_nil in E; destruct E; congruence|right; exact Hne]).
     assert (Hat' : at_input d l pre (attr_bytes a ++ f0 ++ rest)) by (unfold f0; rewrite <- !app_assoc in *; exact Hat).
     destruct (lexes_attr d l pre a f0 rest Hat' Hit Ha Hf0 (Hshape attrs Hwf)) as (l1 & Hl1 & Hi1 & Hr1).
     assert (Hat1 : at_input d l1 (pre ++ attr_bytes a) (concat (map attr_bytes attrs) ++ tail ++ rest)).
@@ -535,7 +536,16 @@ Inductive item :=
 | IRaw (name : list Z) (attrs : list attr) (ws content ename ews : list Z)    (* raw-text element with its content and end tag *)
 | IForeign (h : Z) (name inner ename ews : list Z)                           (* svg / math / xml: "<" name inner "</" ename ews ">" *)
 | IBogus (c1 : Z) (body : list Z)                                            (* bogus comment: "<?" / "<!" / "</" body ">" *)
-| IPlain (name : list Z) (attrs : list attr) (ws content : list Z).          (* <plaintext ...> and everything after it *)
+| IPlain (name : list Z) (attrs : list attr) (ws content : list Z)           (* <plaintext ...> and everything after it *)
+(* constructs cut by the end of input (only as the last item) *)
+| ITextLt (t tl : list Z)                                                    (* text that ends with "<" or "</" *)
+| ICutComment (body : list Z)                                                (* "<!--" body *)
+| ICutCdata (body : list Z)                                                  (* "<![CDATA[" body *)
+| ICutDoctype (x0 x1 x2 x3 x4 x5 x6 : Z) (after : list Z)                    (* "<!doctype" after *)
+| ICutBogus (c1 : Z) (body : list Z)                                         (* "<?" / "<!" / "</" body *)
+| ICutEnd (name ws : list Z)                                                 (* "</" name ws *)
+| ICutTag (name : list Z) (attrs : list attr)                                (* "<" name attributes *)
+| ICutRaw (name : list Z) (attrs : list attr) (ws content : list Z).         (* raw-text element without its end tag *)
 
 Definition item_bytes (i : item) : list Z :=
   match i with
@@ -550,6 +560,14 @@ Definition item_bytes (i : item) : list Z :=
   | IForeign h name inner ename ews => 60 :: name ++ inner ++ 60 :: 47 :: ename ++ ews ++ [62]
   | IBogus c1 body => 60 :: c1 :: body ++ [62]
   | IPlain name attrs ws content => (60 :: name ++ tag_rest attrs ws false) ++ content
+  | ITextLt t tl => t ++ tl
+  | ICutComment b => 60 :: 33 :: 45 :: 45 :: b
+  | ICutCdata b => 60 :: 33 :: 91 :: 67 :: 68 :: 65 :: 84 :: 65 :: 91 :: b
+  | ICutDoctype x0 x1 x2 x3 x4 x5 x6 after => 60 :: 33 :: [x0; x1; x2; x3; x4; x5; x6] ++ after
+  | ICutBogus c1 body => 60 :: c1 :: body
+  | ICutEnd name ws => 60 :: 47 :: name ++ ws
+  | ICutTag name attrs => 60 :: name ++ concat (map attr_bytes attrs)
+  | ICutRaw name attrs ws content => (60 :: name ++ tag_rest attrs ws false) ++ content
   end.
 
 (* exactly one token per construct (a tag: one per part), lower-cased names, verbatim values *)
@@ -570,10 +588,24 @@ Definition item_obs (i : item) : list obs :=
       [mkObs (foreign_ty h) (60 :: map lower name ++ inner ++ 60 :: 47 :: ename ++ ews ++ [62]) (map lower name) []]
   | IBogus c1 body => [mkObs CommentT (60 :: c1 :: body ++ [62]) body []]
   | IPlain name attrs ws content => tag_obs name attrs false ++ [mkObs TextT content content []]
+  | ITextLt t tl => [mkObs TextT (t ++ tl) (t ++ tl) []]
+  | ICutComment b => [mkObs CommentT (60 :: 33 :: 45 :: 45 :: b) b []]
+  | ICutCdata b => [mkObs TextT (60 :: 33 :: 91 :: 67 :: 68 :: 65 :: 84 :: 65 :: 91 :: b) b []]
+  | ICutDoctype x0 x1 x2 x3 x4 x5 x6 after => [mkObs DoctypeT (60 :: 33 :: [x0; x1; x2; x3; x4; x5; x6] ++ after) after []]
+  | ICutBogus c1 body => [mkObs CommentT (60 :: c1 :: body) body []]
+  | ICutEnd name ws => [mkObs EndTagT (60 :: 47 :: map lower name ++ ws) (map lower name) []]
+  | ICutTag name attrs => mkObs StartTagT (60 :: map lower name) (map lower name) [] :: map attr_obs attrs
+  | ICutRaw name attrs ws content => tag_obs name attrs false ++ [mkObs TextT content content []]
   end.
 
-Definition is_text (i : item) : bool := match i with IText _ => true | _ => false end.
-Definition is_plain (i : item) : bool := match i with IPlain _ _ _ _ => true | _ => false end.
+Definition is_text (i : item) : bool := match i with IText _ | ITextLt _ _ => true | _ => false end.
+(* items that reach to the end of input: plaintext and the cut constructs *)
+Definition is_plain (i : item) : bool :=
+  match i with
+  | IPlain _ _ _ _ | ITextLt _ _ | ICutComment _ | ICutCdata _ | ICutDoctype _ _ _ _ _ _ _ _ | ICutBogus _ _ | ICutEnd _ _
+  | ICutTag _ _ | ICutRaw _ _ _ _ => true
+  | _ => false
+  end.
 
 Definition wf_item (i : item) : Prop :=
   match i with
@@ -607,6 +639,23 @@ Definition wf_item (i : item) : Prop :=
   | IPlain name attrs ws content =>
       (exists c nm, name = c :: nm /\ is_letter c = true) /\ Forall namechar name /\
       to_hash (map lower name) = Ok html_hash_Plaintext /\
+      all_ws ws /\ wf_attrs attrs (ws ++ closer false) /\ content <> []
+  | ITextLt t tl => Forall (fun c => c <> 60) t /\ (tl = [60] \/ tl = [60; 47])
+  | ICutComment b => no_term [[45; 45; 62]; [45; 45; 33; 62]] b []
+  | ICutCdata b => no_term [[93; 93; 62]] b []
+  | ICutDoctype x0 x1 x2 x3 x4 x5 x6 after =>
+      Forall2 ci_eq [x0; x1; x2; x3; x4; x5; x6] [100; 111; 99; 116; 121; 112; 101] /\ Forall (fun c => c <> 62) after
+  | ICutBogus c1 body => bogus_open_cut c1 body /\ Forall (fun c => c <> 62) body
+  | ICutEnd name ws =>
+      (exists c nm, name = c :: nm /\ is_letter c = true) /\ Forall (fun c => is_tagend c = false) name /\
+      Forall (fun c => is_ws c = true) ws
+  | ICutTag name attrs =>
+      (exists c nm, name = c :: nm /\ is_letter c = true) /\ Forall namechar name /\
+      (exists h, to_hash (map lower name) = Ok h /\ is_xml_hash h = false) /\ wf_attrs attrs []
+  | ICutRaw name attrs ws content =>
+      (exists c nm, name = c :: nm /\ is_letter c = true) /\ Forall namechar name /\
+      (exists h, to_hash (map lower name) = Ok h /\ is_raw_hash h = true /\ is_xml_hash h = false /\ h <> html_hash_Plaintext /\
+                 raw_len h content = len content) /\        (* no end tag of the element in the content (Script.raw_len) *)
       all_ws ws /\ wf_attrs attrs (ws ++ closer false) /\ content <> []
   end.
 
@@ -673,7 +722,7 @@ Proof.
   assert (Hat2 : at_input d l1 (pre ++ 60 :: name) (concat (map attr_bytes attrs) ++ tail ++ rest)).
   { destruct Hlex1 as (tr & _ & _ & _ & A). unfold tag_rest in A. fold tail in A. rewrite <- app_assoc in A. exact A. }
   (* the attributes *)
-  destruct (lexes_attrs attrs d l1 (pre ++ 60 :: name) tail rest Hat2 Hi1 Hattrs Htail Hshape) as (l2 & Hlex2 & Hi2 & Hr2).
+  destruct (lexes_attrs attrs d l1 (pre ++ 60 :: name) tail rest Hat2 Hi1 Hattrs (or_introl Htail) Hshape) as (l2 & Hlex2 & Hi2 & Hr2).
   assert (Hat3 : at_input d l2 ((pre ++ 60 :: name) ++ concat (map attr_bytes attrs)) ((ws ++ closer void) ++ rest)).
   { destruct Hlex2 as (tr & _ & _ & _ & A). exact A. }
   (* '>' or '/>' *)
@@ -712,7 +761,7 @@ Qed.
 
 Lemma nontext_tag_start i rest : wf_item i -> is_text i = false -> tag_start (item_bytes i ++ rest).
 Proof.
-  intros Hwf Ht. destruct i as [t|b|b|x0 x1 x2 x3 x4 x5 x6 after|name attrs ws void|name ws|name attrs ws content ename ews|h name inner ename ews|c1 body|name attrs ws content]; cbn [is_text] in Ht; try discriminate;
+  intros Hwf Ht. destruct i as [t|b|b|x0 x1 x2 x3 x4 x5 x6 after|name attrs ws void|name ws|name attrs ws content ename ews|h name inner ename ews|c1 body|name attrs ws content|ct ctl|cb|cdb|y0 y1 y2 y3 y4 y5 y6 cafter|cc1 cbody|cname cws|tname tattrs|rname rattrs rws rcontent]; cbn [is_text] in Ht; try discriminate;
     cbn [item_bytes app wf_item] in *.
   - eexists _, _. split; [reflexivity|tauto].
   - eexists _, _. split; [reflexivity|tauto].
@@ -725,6 +774,16 @@ Proof.
   - destruct Hwf as [Hopen Hb]. eexists _, _. split; [reflexivity|].
     destruct Hopen as [->|[(-> & _)|(-> & c2 & r & -> & Hnl)]]; [tauto|tauto|].
     right; right; right. split; [reflexivity|]. cbn [app]. eexists _, _. split; [reflexivity|]. inversion Hb; assumption.
+  - destruct Hwf as ((c & nm & -> & Hl) & _). cbn [app]. eexists _, _. split; [reflexivity|tauto].
+  - eexists _, _. split; [reflexivity|tauto].
+  - eexists _, _. split; [reflexivity|tauto].
+  - eexists _, _. split; [reflexivity|tauto].
+  - destruct Hwf as [Hopen Hb]. eexists _, _. split; [reflexivity|].
+    destruct Hopen as [->|[(-> & _)|(-> & c2 & r & -> & Hnl)]]; [tauto|tauto|].
+    right; right; right. split; [reflexivity|]. cbn [app]. eexists _, _. split; [reflexivity|]. inversion Hb; assumption.
+  - destruct Hwf as ((c & nm & -> & Hl) & _). cbn [app]. eexists _, _. split; [reflexivity|].
+    right; right; right. split; [reflexivity|]. eexists _, _. split; [reflexivity|]. intros ->. discriminate.
+  - destruct Hwf as ((c & nm & -> & Hl) & _). cbn [app]. eexists _, _. split; [reflexivity|tauto].
   - destruct Hwf as ((c & nm & -> & Hl) & _). cbn [app]. eexists _, _. split; [reflexivity|tauto].
 Qed.
 
@@ -755,22 +814,39 @@ Qed.
 
 Lemma item_obs_noerr i : Forall (fun o => o_ty o <> ErrorT) (item_obs i).
 Proof.
-  destruct i as [t|b|b|x0 x1 x2 x3 x4 x5 x6 after|name attrs ws void|name ws|name attrs ws content ename ews|h name inner ename ews|c1 body|name attrs ws content];
+  destruct i as [t|b|b|x0 x1 x2 x3 x4 x5 x6 after|name attrs ws void|name ws|name attrs ws content ename ews|h name inner ename ews|c1 body|name attrs ws content|ct ctl|cb|cdb|y0 y1 y2 y3 y4 y5 y6 cafter|cc1 cbody|cname cws|tname tattrs|rname rattrs rws rcontent];
     cbn [item_obs]; unfold tag_obs; repeat (constructor || apply Forall_app; try split); cbn [o_ty]; try discriminate.
   - rewrite Forall_map. apply Forall_forall. intros [? ?|? ? ? ? ?] _; discriminate.
   - destruct void; discriminate.
   - rewrite Forall_map. apply Forall_forall. intros [? ?|? ? ? ? ?] _; discriminate.
   - unfold foreign_ty. destruct (h =? html_hash_Svg); [discriminate|]. destruct (h =? html_hash_Math); discriminate.
   - rewrite Forall_map. apply Forall_forall. intros [? ?|? ? ? ? ?] _; discriminate.
+  - rewrite Forall_map. apply Forall_forall. intros [? ?|? ? ? ? ?] _; discriminate.
+  - rewrite Forall_map. apply Forall_forall. intros [? ?|? ? ? ? ?] _; discriminate.
+Qed.
+
+(* a token that is the whole of X (nothing lower-cased) with Text() = X[a, a+n) *)
+Lemma lexes_whole d l pre X ty l' a n : at_input d l pre (X ++ []) ->
+  next no_tmpl l = Ok (ty, Some (mkSl (len pre) (len X)), l') -> ltext l' = Some (mkSl (len pre + a) n) ->
+  lbuf (lz l') = lbuf (lz l) -> (ty =? AttributeT) = false -> 0 <= a -> 0 <= n -> a + n <= len X ->
+  lexes d l pre X [] [mkObs ty X (slice X a (a + n)) []] l'.
+Proof.
+  intros Hat Hn Htx Hb Hty Ha Hn0 Han. pose proof (len_nonneg X).
+  eapply lexes_one; [exact Hat|exact Hn|cbn [so sn]; lia|].
+  cbn [observe]. rewrite Htx, Hb, Hty. cbn [opt_bytes].
+  assert (Hat0 : at_input d l pre X) by (rewrite app_nil_r in Hat; exact Hat).
+  rewrite (at_input_view0 d l pre X (len X) Hat0) by lia.
+  rewrite (at_input_view d l pre X a n Hat0) by lia.
+  pose proof (slice_first X []) as Es. rewrite app_nil_r in Es. rewrite Es. reflexivity.
 Qed.
 
 Lemma lexes_item i d l pre rest : at_input d l pre (item_bytes i ++ rest) -> intag l = false -> rawtag l = 0 -> lerr l = false ->
   wf_item i -> (is_text i = true -> rest = [] \/ tag_start rest) -> (is_plain i = true -> rest = []) ->
-  exists l', lexes d l pre (item_bytes i) rest (item_obs i) l' /\ intag l' = false /\ rawtag l' = 0.
+  exists l', lexes d l pre (item_bytes i) rest (item_obs i) l' /\ (is_plain i = false -> intag l' = false /\ rawtag l' = 0).
 Proof.
   intros Hat Hit Hraw Hlerr Hwf Hnext Hlast. destruct (at_input_buflen _ _ _ _ Hat) as [Hbl Hpre0].
   pose proof (len_nonneg rest) as Hrest0.
-  destruct i as [t|b|b|x0 x1 x2 x3 x4 x5 x6 after|name attrs ws void|name ws|name attrs ws content ename ews|h name inner ename ews|c1 body|name attrs ws content]; cbn [item_bytes item_obs wf_item is_text is_plain] in *.
+  destruct i as [t|b|b|x0 x1 x2 x3 x4 x5 x6 after|name attrs ws void|name ws|name attrs ws content ename ews|h name inner ename ews|c1 body|name attrs ws content|ct ctl|cb|cdb|y0 y1 y2 y3 y4 y5 y6 cafter|cc1 cbody|cname cws|tname tattrs|rname rattrs rws rcontent]; cbn [item_bytes item_obs wf_item is_text is_plain] in *.
   - (* text *)
     destruct Hwf as [Hne Ht].
     destruct (next_text d l pre t rest Hat Hit Hraw Hne Ht (Hnext eq_refl)) as (l' & Hn & Htx & Hb & Hi' & Hr' & _).
@@ -941,26 +1017,172 @@ Proof.
       rewrite slice_first. reflexivity. }
     destruct Hraw2 as (l2 & Hl2 & Hi2 & Hr2).
     exists l2. split; [|tauto]. eapply lexes_app; [exact Hl1|exact Hl2].
+  - (* text ending with "<" or "</" *)
+    destruct Hwf as [Ht Htl]. rewrite (Hlast eq_refl) in *.
+    assert (Hat0 : at_input d l pre (ct ++ ctl)) by (rewrite app_nil_r in Hat; exact Hat).
+    destruct (next_text_lt d l pre ct ctl Hat0 Hit Hraw Ht Htl) as (l' & Hn & Htx & Hb & Hi' & Hr' & _).
+    exists l'. split; [|tauto]. pose proof (len_nonneg ct). pose proof (len_nonneg ctl).
+    pose proof (lexes_whole d l pre (ct ++ ctl) TextT l' 0 (len (ct ++ ctl)) Hat ltac:(rewrite len_app; exact Hn) ltac:(rewrite Z.add_0_r, len_app; exact Htx) Hb eq_refl ltac:(lia) (len_nonneg _) ltac:(lia)) as Hlx.
+    rewrite Z.add_0_l in Hlx. pose proof (slice_first (ct ++ ctl) []) as Es. rewrite app_nil_r in Es. rewrite Es in Hlx. exact Hlx.
+  - (* "<!--" body *)
+    rewrite (Hlast eq_refl) in *.
+    assert (Hat0 : at_input d l pre (60 :: 33 :: 45 :: 45 :: cb)) by (rewrite app_nil_r in Hat; exact Hat).
+    destruct (next_comment_cut d l pre cb Hat0 Hit Hraw Hwf) as (l' & Hn & Htx & Hb & Hi' & Hr' & _).
+    exists l'. split; [|tauto]. pose proof (len_nonneg cb).
+    assert (HlX : len (60 :: 33 :: 45 :: 45 :: cb) = 4 + len cb) by (rewrite !len_cons; lia).
+    pose proof (lexes_whole d l pre (60 :: 33 :: 45 :: 45 :: cb) CommentT l' 4 (len cb) Hat ltac:(rewrite HlX; exact Hn) Htx Hb eq_refl ltac:(lia) ltac:(lia) ltac:(lia)) as Hlx.
+    pose proof (slice_mid [60; 33; 45; 45] cb []) as Es. rewrite app_nil_r in Es. change (len [60; 33; 45; 45]) with 4 in Es.
+    cbn [app] in Es. rewrite Es in Hlx. exact Hlx.
+  - (* "<![CDATA[" body *)
+    rewrite (Hlast eq_refl) in *.
+    assert (Hat0 : at_input d l pre (60 :: 33 :: 91 :: 67 :: 68 :: 65 :: 84 :: 65 :: 91 :: cdb)) by (rewrite app_nil_r in Hat; exact Hat).
+    destruct (next_cdata_cut d l pre cdb Hat0 Hit Hraw Hwf) as (l' & Hn & Htx & Hb & Hi' & Hr' & _).
+    exists l'. split; [|tauto]. pose proof (len_nonneg cdb).
+    assert (HlX : len (60 :: 33 :: 91 :: 67 :: 68 :: 65 :: 84 :: 65 :: 91 :: cdb) = 9 + len cdb) by (rewrite !len_cons; lia).
+    pose proof (lexes_whole d l pre _ TextT l' 9 (len cdb) Hat ltac:(rewrite HlX; exact Hn) Htx Hb eq_refl ltac:(lia) ltac:(lia) ltac:(lia)) as Hlx.
+    pose proof (slice_mid [60; 33; 91; 67; 68; 65; 84; 65; 91] cdb []) as Es. rewrite app_nil_r in Es. change (len [60; 33; 91; 67; 68; 65; 84; 65; 91]) with 9 in Es.
+    cbn [app] in Es. rewrite Es in Hlx. exact Hlx.
+  - (* "<!doctype" after *)
+    destruct Hwf as [Hdt Hafter]. rewrite (Hlast eq_refl) in *.
+    assert (Hat0 : at_input d l pre (60 :: 33 :: [y0; y1; y2; y3; y4; y5; y6] ++ cafter)) by (rewrite app_nil_r in Hat; exact Hat).
+    destruct (next_doctype_cut d l pre y0 y1 y2 y3 y4 y5 y6 cafter Hat0 Hit Hraw Hdt Hafter) as (l' & Hn & Htx & Hb & Hi' & Hr' & _).
+    exists l'. split; [|tauto]. pose proof (len_nonneg cafter).
+    assert (HlX : len (60 :: 33 :: [y0; y1; y2; y3; y4; y5; y6] ++ cafter) = 9 + len cafter) by (cbn [app]; rewrite !len_cons; lia).
+    pose proof (lexes_whole d l pre _ DoctypeT l' 9 (len cafter) Hat ltac:(rewrite HlX; exact Hn) Htx Hb eq_refl ltac:(lia) ltac:(lia) ltac:(lia)) as Hlx.
+    pose proof (slice_mid [60; 33; y0; y1; y2; y3; y4; y5; y6] cafter []) as Es. rewrite app_nil_r in Es. change (len [60; 33; y0; y1; y2; y3; y4; y5; y6]) with 9 in Es.
+    cbn [app] in Es. cbn [app] in Hlx. rewrite Es in Hlx. exact Hlx.
+  - (* bogus comment cut *)
+    destruct Hwf as [Hopen Hb0]. rewrite (Hlast eq_refl) in *.
+    assert (Hat0 : at_input d l pre (60 :: cc1 :: cbody)) by (rewrite app_nil_r in Hat; exact Hat).
+    destruct (next_bogus_cut d l pre cc1 cbody Hat0 Hit Hraw Hopen Hb0) as (l' & Hn & Htx & Hb & Hi' & Hr' & _).
+    exists l'. split; [|tauto]. pose proof (len_nonneg cbody).
+    assert (HlX : len (60 :: cc1 :: cbody) = 2 + len cbody) by (rewrite !len_cons; lia).
+    pose proof (lexes_whole d l pre _ CommentT l' 2 (len cbody) Hat ltac:(rewrite HlX; exact Hn) Htx Hb eq_refl ltac:(lia) ltac:(lia) ltac:(lia)) as Hlx.
+    pose proof (slice_mid [60; cc1] cbody []) as Es. rewrite app_nil_r in Es. change (len [60; cc1]) with 2 in Es.
+    cbn [app] in Es. rewrite Es in Hlx. exact Hlx.
+  - (* end tag cut *)
+    destruct Hwf as (Hn1 & Hn2 & Hws). rewrite (Hlast eq_refl) in *.
+    assert (Hat0 : at_input d l pre (60 :: 47 :: cname ++ cws)) by (rewrite app_nil_r in Hat; exact Hat).
+    destruct (next_endtag_cut d l pre cname cws Hat0 Hit Hraw Hn1 Hn2 Hws) as (l' & Hn & Htx & Hb & Hi' & Hr' & _).
+    exists l'. split; [|tauto]. pose proof (len_nonneg cname). pose proof (len_nonneg cws).
+    assert (Hl : len (60 :: 47 :: cname ++ cws) = 2 + len cname + len cws) by (rewrite !len_cons, len_app; lia).
+    eapply lexes_one; [exact Hat|exact Hn|cbn [so sn]; lia|].
+    cbn [observe]. rewrite Htx, Hb. cbn [opt_bytes]. change (EndTagT =? AttributeT) with false.
+    destruct (at_input_buflen _ _ _ _ Hat0) as [Hbl0 _]. rewrite Hl in Hbl0.
+    assert (Hname : view_bytes (lbuf (lz l)) (mkSl (len pre + 2) (len cname)) = cname).
+    { rewrite (at_input_view d l pre _ 2 (len cname) Hat0) by lia. pose proof (slice_mid [60; 47] cname cws) as E. exact E. }
+    f_equal.
+    + replace (mkSl (len pre + 2) (len cname)) with (mkSl (len pre + 2) (2 + len cname - 2)) by (f_equal; lia).
+      rewrite view_lower_middle by lia. replace (2 + len cname - 2) with (len cname) by lia. rewrite Hname.
+      rewrite (at_input_view0 d l pre _ 2 Hat0) by lia.
+      rewrite (at_input_view d l pre _ (2 + len cname) (2 + len cname + len cws - (2 + len cname)) Hat0) by lia.
+      change (slice (60 :: 47 :: cname ++ cws) 0 2) with [60; 47].
+      replace (slice (60 :: 47 :: cname ++ cws) (2 + len cname) (2 + len cname + (2 + len cname + len cws - (2 + len cname)))) with cws; [reflexivity|].
+      symmetry. replace (2 + len cname + (2 + len cname + len cws - (2 + len cname))) with (2 + len cname + len cws) by lia.
+      pose proof (slice_mid ([60; 47] ++ cname) cws []) as E. rewrite app_nil_r in E.
+      replace (len ([60; 47] ++ cname)) with (2 + len cname) in E by (rewrite len_app; reflexivity).
+      rewrite <- app_assoc in E. exact E.
+    + rewrite view_bytes_lower_view by (cbn [so sn]; lia). rewrite Hname. reflexivity.
+  - (* tag cut after its name or an attribute *)
+    destruct Hwf as (Hn1 & Hn2 & (h & Hh & Hxml) & Hattrs). rewrite (Hlast eq_refl) in *.
+    assert (Hshape : forall attrs', wf_attrs attrs' [] -> tagrest_shape ((concat (map attr_bytes attrs') ++ []) ++ [])).
+    { intros attrs' Hw'. rewrite !app_nil_r. destruct attrs' as [|a attrs''].
+      - exists [], []. split; [reflexivity|]. split; [constructor|]. right; right; right. reflexivity.
+      - cbn [wf_attrs] in Hw'. destruct Hw' as [Ha _]. cbn [map concat].
+        assert (Hk : forall w k tl, w <> [] -> all_ws w -> k <> [] -> Forall keychar k -> tagrest_shape ((w ++ k ++ tl))).
+        { intros w k tl Hw1 Hw2 Hk1 Hk2. exists w, (k ++ tl). split; [reflexivity|]. split; [exact Hw2|]. left. split; [exact Hw1|].
+          destruct k as [|c k']; [congruence|]. inversion Hk2; subst. exists c, (k' ++ tl). split; [reflexivity|assumption]. }
+        destruct a as [w k|w k w2 w3 v]; cbn [attr_bytes wf_attr] in *.
+        + destruct Ha as (A1 & A2 & A3 & A4). rewrite <- !app_assoc. apply Hk; assumption.
+        + destruct Ha as (A1 & A2 & A3 & A4 & _). rewrite <- !app_assoc. apply Hk; assumption. }
+    assert (Hat1 : at_input d l pre (60 :: tname ++ concat (map attr_bytes tattrs) ++ [] ++ [])).
+    { cbn [app] in Hat. rewrite !app_nil_r in *. exact Hat. }
+    pose proof (Hshape tattrs Hattrs) as Hsh0. rewrite <- app_assoc in Hsh0.
+    destruct (next_starttag d l pre tname (concat (map attr_bytes tattrs) ++ [] ++ []) h Hat1 Hit Hraw Hn1 Hn2 (shape_tag_stop _ Hsh0) Hh Hxml)
+      as (l1 & Hnx & Htx & Hb & Hi1 & Hr1 & _).
+    pose proof (len_nonneg tname).
+    assert (Hlex1 : lexes d l pre (60 :: tname) (concat (map attr_bytes tattrs) ++ [] ++ [])
+                      [mkObs StartTagT (60 :: map lower tname) (map lower tname) []] l1).
+    { eapply lexes_one; [exact Hat1|exact Hnx|cbn [so sn]; rewrite len_cons; lia|].
+      set (tl := concat (map attr_bytes tattrs) ++ [] ++ []) in *.
+      assert (Hbl1 : len (lbuf (lz l)) = len pre + (1 + len tname + len tl) + 1).
+      { destruct (at_input_buflen _ _ _ _ Hat1) as [E _]. rewrite E, len_cons, len_app. lia. }
+      pose proof (len_nonneg tl).
+      cbn [observe]. rewrite Htx, Hb. cbn [opt_bytes]. change (StartTagT =? AttributeT) with false. f_equal.
+      - replace (mkSl (len pre + 1) (len tname)) with (mkSl (len pre + 1) (1 + len tname - 1)) by (f_equal; lia).
+        rewrite view_lower_middle by lia.
+        rewrite (at_input_view0 d l pre _ 1 Hat1) by (rewrite ?len_cons; pose proof (len_nonneg (tname ++ tl)); lia).
+        replace (1 + len tname - 1) with (len tname) by lia.
+        rewrite (at_input_view d l pre _ 1 (len tname) Hat1) by (rewrite ?len_cons, ?len_app; lia).
+        replace (1 + len tname - (1 + len tname)) with 0 by lia.
+        rewrite (at_input_view d l pre _ (1 + len tname) 0 Hat1) by (rewrite ?len_cons, ?len_app; lia).
+        rewrite slice_zero_len, app_nil_r.
+        replace (slice (60 :: tname ++ tl) 1 (1 + len tname)) with tname by (symmetry; exact (slice_mid [60] tname tl)).
+        change (slice (60 :: tname ++ tl) 0 1) with [60]. reflexivity.
+      - rewrite view_bytes_lower_view by (cbn [so sn]; lia).
+        rewrite (at_input_view d l pre _ 1 (len tname) Hat1) by (rewrite ?len_cons, ?len_app; lia).
+        exact (f_equal (map lower) (slice_mid [60] tname tl)). }
+    assert (Hat2 : at_input d l1 (pre ++ 60 :: tname) (concat (map attr_bytes tattrs) ++ [] ++ [])) by (destruct Hlex1 as (tr & _ & _ & _ & A); exact A).
+    destruct (lexes_attrs tattrs d l1 (pre ++ 60 :: tname) [] [] Hat2 Hi1 Hattrs (or_intror eq_refl) Hshape) as (l2 & Hlex2 & Hi2 & Hr2).
+    exists l2. split; [|discriminate].
+    change (60 :: tname ++ concat (map attr_bytes tattrs)) with ((60 :: tname) ++ concat (map attr_bytes tattrs)).
+    change (mkObs StartTagT (60 :: map lower tname) (map lower tname) [] :: map attr_obs tattrs)
+      with ([mkObs StartTagT (60 :: map lower tname) (map lower tname) []] ++ map attr_obs tattrs).
+    eapply lexes_app; [exact Hlex1|]. cbn [app] in Hlex2. exact Hlex2.
+  - (* raw-text element without its end tag: the tag, then everything up to the end of input as one Text *)
+    destruct Hwf as (Hn1 & Hn2 & (h & Hh & Hrh & Hxh & Hnp & Hrl) & Hws & Hattrs & Hcne). rewrite (Hlast eq_refl) in *. clear Hlast Hnext.
+    assert (Hat1 : at_input d l pre ((60 :: rname ++ tag_rest rattrs rws false) ++ rcontent ++ [])).
+    { rewrite app_nil_r in *. exact Hat. }
+    destruct (lexes_tag d l pre rname rattrs rws false (rcontent ++ []) h Hat1 Hit Hraw Hn1 Hn2 Hh Hxh Hws Hattrs) as (l1 & Hl1 & Hi1 & Hr1).
+    rewrite Hrh in Hr1.
+    set (pre1 := pre ++ 60 :: rname ++ tag_rest rattrs rws false) in *.
+    assert (Hat2 : at_input d l1 pre1 (rcontent ++ [])) by (destruct Hl1 as (tr & _ & _ & _ & A); exact A).
+    assert (Hraw2 : exists l2, lexes d l1 pre1 rcontent [] [mkObs TextT rcontent rcontent []] l2 /\ intag l2 = false /\ rawtag l2 = 0).
+    { pose proof Hat2 as (Hiv & Hcl & Hd & Hp). pose proof Hiv as (Hlw & Hlen & _).
+      pose proof (len_nonneg rcontent). pose proof (len_nonneg pre1).
+      assert (Hcpos : 0 < len rcontent) by (destruct rcontent; [congruence|rewrite len_cons; pose proof (len_nonneg rcontent); lia]).
+      assert (Hlend : len d = len pre1 + len rcontent) by (rewrite Hd, app_nil_r, len_app; reflexivity).
+      assert (Hh0 : h <> 0) by (intros ->; vm_compute in Hrh; discriminate).
+      destruct (html_total_step_proof no_tmpl d l1 cfg_ok_no_tmpl Hiv) as (ty & tk & l2 & Hnx & Hiv2).
+      pose proof (html_raw_end_proof d l1 ty tk l2 Hiv Hi1 ltac:(rewrite Hr1; exact Hh0) ltac:(rewrite Hr1; exact Hnp) Hnx) as Hre. cbn zeta in Hre.
+      assert (Esk : skipz (lpos (lz l1)) d = rcontent) by (rewrite Hp, Hd, app_nil_r; apply skipz_app_len).
+      rewrite Esk, Hr1, Hrl, Hp in Hre. destruct Hre as [_ Hre].
+      destruct (Hre ltac:(lia)) as (-> & -> & Htx & Hr2 & Hit2 & Hpos2).
+      exists l2. split; [|tauto].
+      assert (Hbuf : lbuf (lz l2) = lbuf (lz l1)).
+      { pose proof (safe_eq _ _ _ (next_spec no_tmpl l1 cfg_ok_no_tmpl Hlw) Hnx) as Hs. cbn [step_post] in Hs.
+        destruct Hs as (_ & _ & (w & Hb & W1 & W2 & W3 & Wr) & _). unfold low_rule in Wr. cbn in Wr.
+        rewrite Hb. destruct w as [wo wn]. cbn [so sn] in *. subst wn. apply lower_view_empty. unfold lx_len in Hlen. rewrite Hp in W1. lia. }
+      eapply (lexes_one d l1 pre1 rcontent); [exact Hat2|exact Hnx|cbn [so sn]; lia|].
+      cbn [observe]. rewrite Htx, Hbuf. cbn [opt_bytes]. change (TextT =? AttributeT) with false.
+      replace (len pre1 + len rcontent - len pre1) with (len rcontent) by lia.
+      rewrite (at_input_view0 d l1 pre1 _ (len rcontent) Hat2) by (rewrite ?len_app; change (len (@nil Z)) with 0; lia).
+      rewrite slice_first. reflexivity. }
+    destruct Hraw2 as (l2 & Hl2 & Hi2 & Hr2).
+    exists l2. split; [|tauto]. eapply lexes_app; [exact Hl1|exact Hl2].
 Qed.
 
 (* ---- documents ------------------------------------------------------------------------------------------------------------- *)
 Lemma lexes_doc items : forall d l pre, at_input d l pre (doc_bytes items) -> intag l = false -> rawtag l = 0 -> lerr l = false -> wf_doc items ->
-  exists l', lexes d l pre (doc_bytes items) [] (doc_obs items) l' /\ intag l' = false /\ rawtag l' = 0.
+  exists l', lexes d l pre (doc_bytes items) [] (doc_obs items) l'.
 Proof.
   induction items as [|i items IH]; intros d l pre Hat Hit Hraw Hlerr Hwf.
-  - exists l. split; [apply lexes_nil; exact Hat|tauto].
+  - exists l. apply lexes_nil; exact Hat.
   - cbn [wf_doc] in Hwf. destruct Hwf as (Hi & Hnt & Hlast & Hrest).
     unfold doc_bytes, doc_obs in *. cbn [map concat] in *. fold (doc_bytes items) in *. fold (doc_obs items) in *.
     assert (Hfollow : is_text i = true -> doc_bytes items = [] \/ tag_start (doc_bytes items)).
     { intros Ht. specialize (Hnt Ht). destruct items as [|j items']; [left; reflexivity|right].
       cbn [wf_doc] in Hrest. destruct Hrest as (Hj & _). unfold doc_bytes. cbn [map concat]. apply nontext_tag_start; assumption. }
     assert (Hlast' : is_plain i = true -> doc_bytes items = []) by (intros Hpl; rewrite (Hlast Hpl); reflexivity).
-    destruct (lexes_item i d l pre (doc_bytes items) Hat Hit Hraw Hlerr Hi Hfollow Hlast') as (l1 & Hl1 & Hi1 & Hr1).
-    assert (Hat1 : at_input d l1 (pre ++ item_bytes i) (doc_bytes items)) by (destruct Hl1 as (tr & _ & _ & _ & A); exact A).
-    assert (Hlerr1 : lerr l1 = false).
-    { rewrite (lexes_lerr _ _ _ _ _ _ _ (proj1 (proj1 Hat)) Hl1 (item_obs_noerr i)). exact Hlerr. }
-    destruct (IH d l1 (pre ++ item_bytes i) Hat1 Hi1 Hr1 Hlerr1 Hrest) as (l2 & Hl2 & Hi2 & Hr2).
-    exists l2. split; [|tauto]. eapply lexes_app; [|exact Hl2]. rewrite app_nil_r. exact Hl1.
+    destruct (lexes_item i d l pre (doc_bytes items) Hat Hit Hraw Hlerr Hi Hfollow Hlast') as (l1 & Hl1 & Hst1).
+    destruct (is_plain i) eqn:Epl.
+    + rewrite (Hlast eq_refl) in *. exists l1. unfold doc_bytes, doc_obs in *. cbn [map concat] in *. rewrite !app_nil_r in *. exact Hl1.
+    + destruct (Hst1 eq_refl) as [Hi1 Hr1].
+      assert (Hat1 : at_input d l1 (pre ++ item_bytes i) (doc_bytes items)) by (destruct Hl1 as (tr & _ & _ & _ & A); exact A).
+      assert (Hlerr1 : lerr l1 = false).
+      { rewrite (lexes_lerr _ _ _ _ _ _ _ (proj1 (proj1 Hat)) Hl1 (item_obs_noerr i)). exact Hlerr. }
+      destruct (IH d l1 (pre ++ item_bytes i) Hat1 Hi1 Hr1 Hlerr1 Hrest) as (l2 & Hl2).
+      exists l2. eapply lexes_app; [|exact Hl2]. rewrite app_nil_r. exact Hl1.
 Qed.
 
 Lemma at_input_init d : at_input d (new_lexer d) [] d.
@@ -971,7 +1193,7 @@ Lemma html_wellformed_tokens_proof : forall items, wf_doc items ->
              map observe tr = doc_obs items ++ [mkObs ErrorT [] [] []].
 Proof.
   intros items Hwf. set (d := doc_bytes items).
-  destruct (lexes_doc items d (new_lexer d) [] (at_input_init d) eq_refl eq_refl eq_refl Hwf) as (l' & (tr & Hr & Ho & Hf & Hat) & Hi & Hraw).
+  destruct (lexes_doc items d (new_lexer d) [] (at_input_init d) eq_refl eq_refl eq_refl Hwf) as (l' & (tr & Hr & Ho & Hf & Hat)).
   cbn [app] in Hat. destruct Hat as (Hinv & Hcl & Hd & Hp). rewrite app_nil_r in Hd. subst d. clear Hd.
   destruct (html_eof_sticky_step_proof no_tmpl _ l' cfg_ok_no_tmpl Hinv Hp) as (l2 & Hn2 & Hinv2 & Hp2 & _).
   exists (tr ++ [(ErrorT, None, l2)]). rewrite run_app, Hr. cbn [rbind]. rewrite Hf. cbn [run]. rewrite Hn2. cbn [rbind].
@@ -1092,4 +1314,33 @@ Proof.
   cbn [wf_item]. split; [eexists _, _; split; reflexivity|].
   split; [repeat constructor; vm_compute; repeat split; discriminate|].
   split; [vm_compute; reflexivity|]. split; [constructor|]. split; [cbn [wf_attrs]; exact I|discriminate].
+Qed.
+
+(* non-vacuity of the cut constructs: <p><script>a<!--<script></script>  (the script content runs to the end of input: inside the
+   "<!--" section the "</script" only closes the inner "<script"), and <p>x</p><a b='c' d  (a tag cut after an attribute) *)
+Example html_wellformed_cut_nonvacuous :
+  let doc1 := [ ITag [112] [] [] false;
+                ICutRaw [115; 99; 114; 105; 112; 116] [] [] [97; 60; 33; 45; 45; 60; 115; 99; 114; 105; 112; 116; 62; 60; 47; 115; 99; 114; 105; 112; 116; 62] ] in
+  let doc2 := [ ITag [112] [] [] false; IText [120]; IEnd [112] []; ICutTag [97] [AVal [32] [98] [] [] [39; 99; 39]; ANone [32] [100]] ] in
+  (wf_doc doc1 /\ exists tr, run no_tmpl 6 (new_lexer (doc_bytes doc1)) = Ok tr /\ map observe tr = doc_obs doc1 ++ [mkObs ErrorT [] [] []]) /\
+  (wf_doc doc2 /\ exists tr, run no_tmpl 8 (new_lexer (doc_bytes doc2)) = Ok tr /\ map observe tr = doc_obs doc2 ++ [mkObs ErrorT [] [] []]).
+Proof.
+  assert (Hp : wf_item (ITag [112] [] [] false)).
+  { cbn [wf_item]. split; [eexists _, _; split; reflexivity|]. split; [repeat constructor; vm_compute; repeat split; discriminate|].
+    split; [eexists; split; vm_compute; reflexivity|]. split; [constructor|exact I]. }
+  split; (split; [|eexists; split; vm_compute; reflexivity]); cbn [wf_doc is_text is_plain].
+  - split; [exact Hp|]. split; [discriminate|]. split; [discriminate|]. split; [|split; [discriminate|split; [reflexivity|exact I]]].
+    cbn [wf_item]. split; [eexists _, _; split; reflexivity|]. split; [repeat constructor; vm_compute; repeat split; discriminate|].
+    split; [|split; [constructor|split; [exact I|discriminate]]].
+    exists html_hash_Script. split; [vm_compute; reflexivity|]. split; [vm_compute; reflexivity|]. split; [vm_compute; reflexivity|].
+    split; [vm_compute; discriminate|vm_compute; reflexivity].
+  - split; [exact Hp|]. split; [discriminate|]. split; [discriminate|].
+    split; [cbn [wf_item]; split; [discriminate|repeat constructor; discriminate]|]. split; [intros _; reflexivity|]. split; [discriminate|].
+    split; [cbn [wf_item]; split; [eexists _, _; split; reflexivity|]; split; [repeat constructor; vm_compute; reflexivity|constructor]|].
+    split; [discriminate|]. split; [discriminate|]. split; [|split; [discriminate|split; [reflexivity|exact I]]].
+    cbn [wf_item]. split; [eexists _, _; split; reflexivity|]. split; [repeat constructor; vm_compute; repeat split; discriminate|].
+    split; [eexists; split; vm_compute; reflexivity|]. cbn [wf_attrs wf_attr]. split.
+    + split; [discriminate|]. split; [repeat constructor|]. split; [discriminate|]. split; [repeat constructor; vm_compute; repeat split; discriminate|].
+      split; [constructor|]. split; [constructor|]. right. exists 39, [99]. split; [reflexivity|]. split; [tauto|repeat constructor; discriminate].
+    + split; [|exact I]. split; [discriminate|]. split; [repeat constructor|]. split; [discriminate|]. repeat constructor; vm_compute; repeat split; discriminate.
 Qed.
